@@ -5,6 +5,7 @@ import (
 	"fmt"
 	"strconv"
 	"strings"
+	"time"
 
 	"github.com/privacybydesign/gabi"
 	"github.com/privacybydesign/gabi/big"
@@ -212,6 +213,26 @@ func honestIssuance(g *Rng, kp *KeyPair, nattr int, blind []int, keyshare, witne
 				o["sigviews"] = sigViews(o["msg"], []*KeyPair{kp})
 			}
 			emit(o)
+		}
+	}
+	if witness {
+		// the witness altered, and the message's unauthenticated time stamp set to the time of the
+		// signed accumulator (as if the witness had been checked against it already)
+		if acc, err := w.SignedAccumulator.UnmarshalVerify(pk); err == nil {
+			for _, stamp := range []string{time.Unix(acc.Time, 0).UTC().Format(time.RFC3339), time.Unix(acc.Time, 0).Format(time.RFC3339Nano)} {
+				o := cloneOp(op)
+				nr, _ := o["msg"].(map[string]any)["nonrev"].(map[string]any)
+				if nr == nil {
+					break
+				}
+				u := new(big.Int).Add(w.U, bi(1))
+				nr["u"] = I(u.Mod(u, pk.N))
+				nr["Updated"] = T{"$raw": strconv.Quote(stamp)}
+				o["class"], o["label"] = "msg2-altered-witness-with-timestamp", "rejected"
+				o["fkey"] = "C06/altered-witness-with-timestamp"
+				o["sigviews"] = sigViews(o["msg"], []*KeyPair{kp})
+				emit(o)
+			}
 		}
 	}
 	if !keyshare && len(blind) == 0 && !witness {
